@@ -25,6 +25,11 @@ Two groups of contracts, all discharged by Kani against the REAL code of /repo:
     Family: unit / () / {}, tuple and named 1..3, multi-line and symbolic-byte field values, an enum with all variant kinds, nesting
     depth 2 (tuple|named in tuple|named, in enum variants), generics (type, lifetime + const, enum), raw identifiers as type /
     variant / field names, all subsets of skipped fields of 1-, 2- and 3-field structs, field-level formats.
+    Added after the seeded-defect rounds: enum tuple variants with a skipped field BEFORE / BETWEEN shown ones (k_enum_pos: distinct
+    probe types; k_enum_pos_val: equal types, pairwise distinct symbolic values), raw-named fields that also carry a field-level
+    format (raw_field_fmt), raw type / variant names on empty tuples and tuples with skipped / formatted fields, unit shapes
+    inside flat holders under width and precision (n_unit_in_tuple; `ob_flat` = default | x? | X? | every width | every precision),
+    a literal-only field format "h\nt" in pretty mode (f_literal_nl: one write_str with an interior and no trailing newline).
     One representative carries a real `#[kani::ensures]` (proof_for_contract); one negative control.
 
 Cost notes (measured, see DESIGN): CBMC's symbolic execution only stays concrete -- a few seconds per value instead of > 7 min -- if
